@@ -215,6 +215,11 @@ def check(prop: str, tier: str, only: str = "") -> int:
     mod = importlib.import_module(f"vlib.props.{prop.lower()}")
     items = mod.conditions(tier)
     items = [c for c in items if tier == "thorough" or c.tier == "quick"]
+    # no single condition may take more than this many CPU seconds (it is then reported inconclusive)
+    cap = float(os.environ.get("VERIF_MAX_COND_TIMEOUT", "2400"))
+    for c in items:
+        if c.kind == "crosshair" and c.timeout > cap:
+            c.timeout = cap
     if only:
         items = [c for c in items if re.search(only, c.name)]
     names = [c.name for c in items]
